@@ -138,7 +138,7 @@ func (vfs *MemFS) Chown(name string, uid, gid int) error {
 	vfs.treeMu.RLock()
 	defer vfs.treeMu.RUnlock()
 
-	if (vfs.HasFeature(avfs.FeatIdentityMgr) && !vfs.User().IsAdmin()) || vfs.OSType() == avfs.OsWindows {
+	if vfs.OSType() == avfs.OsWindows {
 		return &fs.PathError{Op: op, Path: name, Err: vfs.err.OpNotPermitted}
 	}
 
@@ -148,8 +148,11 @@ func (vfs *MemFS) Chown(name string, uid, gid int) error {
 	}
 
 	child.Lock()
-	child.setOwner(uid, gid)
-	child.Unlock()
+	defer child.Unlock()
+
+	if !child.setOwner(uid, gid, vfs.User(), vfs.HasFeature(avfs.FeatIdentityMgr)) {
+		return &fs.PathError{Op: op, Path: name, Err: vfs.err.OpNotPermitted}
+	}
 
 	return nil
 }
@@ -318,7 +321,7 @@ func (vfs *MemFS) Lchown(name string, uid, gid int) error {
 	vfs.treeMu.RLock()
 	defer vfs.treeMu.RUnlock()
 
-	if (vfs.HasFeature(avfs.FeatIdentityMgr) && !vfs.User().IsAdmin()) || vfs.OSType() == avfs.OsWindows {
+	if vfs.OSType() == avfs.OsWindows {
 		return &fs.PathError{Op: op, Path: name, Err: vfs.err.OpNotPermitted}
 	}
 
@@ -328,8 +331,11 @@ func (vfs *MemFS) Lchown(name string, uid, gid int) error {
 	}
 
 	child.Lock()
-	child.setOwner(uid, gid)
-	child.Unlock()
+	defer child.Unlock()
+
+	if !child.setOwner(uid, gid, vfs.User(), vfs.HasFeature(avfs.FeatIdentityMgr)) {
+		return &fs.PathError{Op: op, Path: name, Err: vfs.err.OpNotPermitted}
+	}
 
 	return nil
 }
